@@ -18,7 +18,8 @@ Mult(u) == Pow(Unit(u)[1], Unit(u)[2])
 Units == {"", "b", "k", "kb", "kib", "m", "mb", "mib", "g", "gb", "gib", "t", "tb", "tib"}
 Numbers == { [txt |-> "1", num |-> 1, den |-> 1], [txt |-> "2", num |-> 2, den |-> 1],
              [txt |-> "1.5", num |-> 3, den |-> 2], [txt |-> "0.5", num |-> 1, den |-> 2],
-             [txt |-> ".5", num |-> 1, den |-> 2], [txt |-> "1.50", num |-> 3, den |-> 2] }      \* (other spellings of the same fractions)
+             [txt |-> ".5", num |-> 1, den |-> 2], [txt |-> "1.50", num |-> 3, den |-> 2],       \* (other spellings of the same fractions)
+             [txt |-> "2.0", num |-> 2, den |-> 1] }                                              \* (a whole number written with a fraction: any unit, also `b` and none)
 (* fractional numbers only with units whose multiplier is even; `b`/none take whole numbers *)
 ValueOf(u, n) == DivSmall(MulSmall(Mult(u), n.num), n.den)
 Allowed(u, n) == n.den = 1 \/ Unit(u)[2] > 0
@@ -67,7 +68,7 @@ Spec == Init /\ [][Next]_vars
 OpText(o) == CASE o = "eq" -> "=" [] o = "ne" -> "!=" [] o = "gt" -> ">" [] o = "gte" -> ">=" [] o = "lt" -> "<" [] o = "lte" -> "<="
 SpecText == (IF spec.prec # 9 THEN "%." \o ToString(spec.prec) ELSE "") \o (IF spec.space THEN " " ELSE "") \o spec.flags \o spec.unit
 LitScenario ==
-  [prop |-> "C14", kind |-> "lit", world |-> "W14", class |-> "literal/unit=" \o unit \o (IF number.den = 1 THEN "" ELSE "/fraction"),
+  [prop |-> "C14", kind |-> "lit", world |-> "W14", class |-> "literal/unit=" \o unit \o (IF number.den = 1 THEN (IF number.txt = "2.0" THEN "/whole-with-fraction" ELSE "") ELSE "/fraction"),
    op |-> op, val |-> ValueOf(unit, number), spec |-> NoSpec, sizes |-> <<>>,
    env |-> [tz |-> "UTC", cwd |-> 0],
    runs |-> << [tag |-> "r1", ncols |-> 1, chars |-> FALSE,
